@@ -1207,6 +1207,28 @@ pub fn post_op(cx: &Ctx, b: &Built, op: &Op, s: &StepOut) {
     let _ = b;
 }
 
+/// Build-independent description of what a transaction did: outcome, every emitted message with the
+/// token-factory module path stripped from its type URL, and the resulting totals (terms).
+pub fn behaviour_digest(s: &StepOut) -> String {
+    let mut out = format!("{}|", s.tx.kind());
+    if let Tx::Ok { msgs, .. } = &s.tx {
+        for m in msgs {
+            let d = match m {
+                Emitted::CreateDenom { url, sender, subdenom, .. } => format!("{}({sender},{subdenom})", url.rsplit('.').next().unwrap_or("")),
+                Emitted::Mint { url, sender, denom, amount, to, .. } => format!("{}({sender},{denom},{amount},{to})", url.rsplit('.').next().unwrap_or("")),
+                Emitted::Burn { url, sender, denom, amount, from, .. } => format!("{}({sender},{denom},{amount},{from})", url.rsplit('.').next().unwrap_or("")),
+                other => format!("{other:?}"),
+            };
+            out.push_str(&d);
+            out.push(';');
+        }
+    } else {
+        out.push_str(&s.tx.detail());
+    }
+    out.push_str(&format!("|N={} L={} F={} R={} pend={} nb={} npk={}", s.post.n, s.post.l, s.post.fees, s.post.rewards, s.post.pending_id, s.post.batches.len(), s.post.packets.len()));
+    out
+}
+
 pub fn raw_equal_except(a: &crate::world::Dump, b: &crate::world::Dump, keys: &[&[u8]]) -> bool {
     let fa: Vec<_> = a.iter().filter(|(k, _)| !keys.iter().any(|x| k.as_slice() == *x)).collect();
     let fb: Vec<_> = b.iter().filter(|(k, _)| !keys.iter().any(|x| k.as_slice() == *x)).collect();
